@@ -324,17 +324,20 @@ overflow:
 
 // Integer multiplication with overflow detection
 func intMul(a, b Int) Object {
-	absA := a
-	if a < 0 {
-		absA = -a
-	}
-	absB := b
-	if b < 0 {
-		absB = -b
-	}
-	// A crude but effective test!
-	if absA <= sqrtIntMax && absB <= sqrtIntMax {
-		return Int(a * b)
+	// IntMin can't be negated so always goes the long way round
+	if a != IntMin && b != IntMin {
+		absA := a
+		if a < 0 {
+			absA = -a
+		}
+		absB := b
+		if b < 0 {
+			absB = -b
+		}
+		// A crude but effective test!
+		if absA <= sqrtIntMax && absB <= sqrtIntMax {
+			return Int(a * b)
+		}
 	}
 	aBig := big.NewInt(int64(a))
 	bBig := big.NewInt(int64(b))
